@@ -13,7 +13,7 @@ func init() {
 		ID: "C07",
 		Explanation: "Structural necessary conditions of 'token creation and login never escalate privilege', as guard-cuts on every path of TokenStore.handleCreateCommon to the token-creating call (ts.create) and on the helpers it relies on: " +
 			"(1) no parent / batch parent / use-limited parent refusals; (2) cross-namespace creation needs sudo and may not name root; (3) a caller-chosen ID, the no_parent orphaning and a period are stored only behind the sudo test (and root namespace for IDs); orphaning otherwise only from the role's orphan flag or the create-orphan endpoint argument; writers of these TokenEntry fields are tabled; " +
-			"(4) the final policy list comes only from resolveTokenPolicies, root in it requires a root parent and a non-batch type, and no store to the policy list is reachable after that check; " +
+			"(4) the final policy list comes only from resolveTokenPolicies, root in it requires a root parent and a non-batch type, and no store to the policy list is reachable after that check (the guard is looked for on every path to ts.create in handleCreateCommon or, failing that, in a same-package function it hands &te and the parent entry to; the sudo answer may reach its uses through a closure that only forwards SudoPrivilege); " +
 			"(5) resolveTokenPolicies reaches its final policy set only through the role-with-lists arm, the cross-namespace arm, parent inheritance, the subset test or sudo, checks role allow/deny lists and rejects non-assignable policies on every returning path; the role arm hands its list on only after, for each of the role's four lists separately, that list was found empty or the loop testing every policy against it ran to its end (or, for the allowed lists, the role's own allowed list was adopted); " +
 			"(6) non-expiring root only from a non-expiring root parent; TTLs come out of CalculateTTL or the explicit maximum; " +
 			"(7) login token creation (LoginCreateToken, Core.RegisterAuth) rejects root and non-assignable policies over token+identity policies before registering and refuses non-root zero TTL; " +
